@@ -79,3 +79,21 @@ rs_harness!(c17_t_ik_r_end, 5, 3, Pat::IK, false, 2);
 rs_harness!(c17_t_kk_r_end, 5, 3, Pat::KK, false, 2);
 rs_harness!(c17_t_x_r_end, 5, 3, Pat::X, false, 1);
 rs_harness!(c17_t_n_r_end, 5, 3, Pat::N, false, 1);
+
+/// A message carrying an encrypted static key is altered inside its encrypted part (ideal AEAD, two real endpoints,
+/// symbolic position / value / truncation): the read fails, and whatever is reported as the remote static key
+/// afterwards is the sender's true key or nothing - the key becomes available only through a successful read.
+macro_rules! rs_altered_harness {
+    ($name:ident, $pat:expr, $k:expr, $kind:expr) => {
+        #[kani::proof]
+        #[kani::unwind(50)]
+        pub fn $name() {
+            super::c03::altered_encrypted_part_opt($pat, 0, $k, $kind, true);
+        }
+    };
+}
+rs_altered_harness!(c17_q_altered_s_xx_k1_flip, Pat::XX, 1, 0);
+rs_altered_harness!(c17_q_altered_s_xx_k2_flip, Pat::XX, 2, 0);
+rs_altered_harness!(c17_t_altered_s_ik_k0_flip, Pat::IK, 0, 0);
+rs_altered_harness!(c17_t_altered_s_xx_k1_trunc, Pat::XX, 1, 1);
+rs_altered_harness!(c17_t_altered_s_x_k0_flip, Pat::X, 0, 0);
